@@ -154,7 +154,7 @@ func drawScenario(rng *rand.Rand, family string, quick bool, forceLate ...bool) 
 		sc.ForkEpochs = [4]uint64{1, 2, 3, 3}
 	}
 	sc.StepEvery = rng.IntN(2) == 0
-	forceDeneb, forceBellatrix, forceDenebAt3 := false, false, false
+	forceDeneb, forceBellatrix, forceDenebAt3, forceCapellaAt2 := false, false, false, false
 	switch family {
 	case "steady":
 		sc.Epochs = 7 + rng.IntN(4)
@@ -213,7 +213,9 @@ func drawScenario(rng *rand.Rand, family string, quick bool, forceLate ...bool) 
 		sc.PBlock = 0.95
 		sc.Epochs = 10 + rng.IntN(3)
 		if rng.IntN(2) == 0 {
+			// sync-committee periods of 4 epochs: shocks fall on period boundaries (epochs 4, 8); capella for most of the chain
 			sc.Preset = "custom"
+			forceCapellaAt2 = true
 		}
 	case "massslash":
 		// most of the registry is slashed within a few epochs: correlation penalties take whole effective balances,
@@ -283,6 +285,10 @@ func drawScenario(rng *rand.Rand, family string, quick bool, forceLate ...bool) 
 	if forceDeneb {
 		lateForks = false
 		sc.ForkEpochs = [4]uint64{1, 1, 1, 1}
+	}
+	if forceCapellaAt2 {
+		lateForks = false
+		sc.ForkEpochs = [4]uint64{1, 1, 2, uint64(7 + rng.IntN(3))}
 	}
 	if forceDenebAt3 {
 		lateForks = false
